@@ -1,7 +1,532 @@
-//! C05 operations (op names start with `c05.`)
-#[allow(unused_imports)]
+//! C05 — shifts and bit queries (op names start with `c05.`)
+//!
+//! `c05.u.<name> n x …`  fixed `Uint<n>`;  `c05.i.<name> n x …`  `Int<n>` (two's complement hex);
+//! `c05.b.<name> n x …`  `BoxedUint` with `n` limbs;  `c05.l.<name> x …`  a single `Limb`.
+//! Shift amounts, bit indices, limb counts: decimal. Values: hex.
 use crate::util::*;
+use crypto_bigint::subtle::{Choice, CtOption};
+use crypto_bigint::{
+    BitOps, BoxedUint, ConstCtOption, Int, ShlVartime, ShrVartime, Uint, Wrapping, WrappingShl, WrappingShr,
+};
 
-pub fn dispatch(_op: &str, _a: &[&str]) -> Option<String> {
-    None
+fn co<const N: usize>(o: ConstCtOption<Uint<N>>) -> String {
+    let o: Option<Uint<N>> = o.into();
+    o.map(|v| uhex(&v)).unwrap_or("none".into())
+}
+fn coi<const N: usize>(o: ConstCtOption<Int<N>>) -> String {
+    let o: Option<Int<N>> = o.into();
+    o.map(|v| ihex(&v)).unwrap_or("none".into())
+}
+fn cto<T>(o: CtOption<T>, f: impl Fn(&T) -> String) -> String {
+    let o: Option<T> = o.into();
+    o.map(|v| f(&v)).unwrap_or("none".into())
+}
+
+fn bitops_line<T: BitOps>(x: &T) -> String {
+    format!(
+        "{} {} {} {} {} {} {} {} {} {} {}",
+        x.bits_precision(),
+        x.log2_bits(),
+        x.bytes_precision(),
+        BitOps::bits(x),
+        BitOps::bits_vartime(x),
+        BitOps::leading_zeros(x),
+        BitOps::leading_zeros_vartime(x),
+        BitOps::trailing_zeros(x),
+        BitOps::trailing_zeros_vartime(x),
+        BitOps::trailing_ones(x),
+        BitOps::trailing_ones_vartime(x)
+    )
+}
+
+/// all spellings of one binary bitwise operator must agree; prints the common value
+macro_rules! forms_agree {
+    ($vals:expr, $pr:expr) => {{
+        let vals = $vals;
+        let first = $pr(&vals[0]);
+        let mut out = first.clone();
+        for (i, v) in vals.iter().enumerate() {
+            let s = $pr(v);
+            if s != first {
+                out = format!("forms-differ:{}:{}:{}", i, first, s);
+                break;
+            }
+        }
+        out
+    }};
+}
+
+fn fixed<const N: usize>(op: &str, a: &[&str]) -> Option<String> {
+    let x = arg!(a.first().and_then(|s| uint::<N>(s)));
+    let a = &a[1..];
+    Some(match (op, a) {
+        ("shl", [s]) => uhex(&x.shl(arg!(dec32(s)))),
+        ("shr", [s]) => uhex(&x.shr(arg!(dec32(s)))),
+        ("shl_vartime", [s]) => uhex(&x.shl_vartime(arg!(dec32(s)))),
+        ("shr_vartime", [s]) => uhex(&x.shr_vartime(arg!(dec32(s)))),
+        ("overflowing_shl", [s]) => co(x.overflowing_shl(arg!(dec32(s)))),
+        ("overflowing_shr", [s]) => co(x.overflowing_shr(arg!(dec32(s)))),
+        ("overflowing_shl_vartime", [s]) => co(x.overflowing_shl_vartime(arg!(dec32(s)))),
+        ("overflowing_shr_vartime", [s]) => co(x.overflowing_shr_vartime(arg!(dec32(s)))),
+        ("wrapping_shl", [s]) => uhex(&x.wrapping_shl(arg!(dec32(s)))),
+        ("wrapping_shr", [s]) => uhex(&x.wrapping_shr(arg!(dec32(s)))),
+        ("wrapping_shl_vartime", [s]) => uhex(&x.wrapping_shl_vartime(arg!(dec32(s)))),
+        ("wrapping_shr_vartime", [s]) => uhex(&x.wrapping_shr_vartime(arg!(dec32(s)))),
+        ("tr_wrapping_shl", [s]) => uhex(&WrappingShl::wrapping_shl(&x, arg!(dec32(s)))),
+        ("tr_wrapping_shr", [s]) => uhex(&WrappingShr::wrapping_shr(&x, arg!(dec32(s)))),
+        ("tr_overflowing_shl_vartime", [s]) => cto(ShlVartime::overflowing_shl_vartime(&x, arg!(dec32(s))), uhex),
+        ("tr_overflowing_shr_vartime", [s]) => cto(ShrVartime::overflowing_shr_vartime(&x, arg!(dec32(s))), uhex),
+        ("tr_wrapping_shl_vartime", [s]) => uhex(&ShlVartime::wrapping_shl_vartime(&x, arg!(dec32(s)))),
+        ("tr_wrapping_shr_vartime", [s]) => uhex(&ShrVartime::wrapping_shr_vartime(&x, arg!(dec32(s)))),
+        ("op_shl", [s, f]) => {
+            let s = arg!(dec32(s));
+            match *f {
+                "0" => uhex(&(x << s)),
+                "1" => uhex(&(&x << s)),
+                "2" => {
+                    let mut y = x;
+                    y <<= s;
+                    uhex(&y)
+                }
+                "3" => uhex(&(x << (s as i32))),
+                "4" => uhex(&(&x << (s as usize))),
+                "5" => {
+                    let mut y = x;
+                    y <<= s as usize;
+                    uhex(&y)
+                }
+                _ => return Some(BAD.into()),
+            }
+        }
+        ("op_shr", [s, f]) => {
+            let s = arg!(dec32(s));
+            match *f {
+                "0" => uhex(&(x >> s)),
+                "1" => uhex(&(&x >> s)),
+                "2" => {
+                    let mut y = x;
+                    y >>= s;
+                    uhex(&y)
+                }
+                "3" => uhex(&(x >> (s as i32))),
+                "4" => uhex(&(&x >> (s as usize))),
+                "5" => {
+                    let mut y = x;
+                    y >>= s as usize;
+                    uhex(&y)
+                }
+                _ => return Some(BAD.into()),
+            }
+        }
+        ("shl_wide", [hi, s]) => {
+            let hi = arg!(uint::<N>(hi));
+            let r: Option<(Uint<N>, Uint<N>)> = Uint::overflowing_shl_vartime_wide((x, hi), arg!(dec32(s))).into();
+            r.map(|(l, h)| format!("{} {}", uhex(&l), uhex(&h))).unwrap_or("none".into())
+        }
+        ("shr_wide", [hi, s]) => {
+            let hi = arg!(uint::<N>(hi));
+            let r: Option<(Uint<N>, Uint<N>)> = Uint::overflowing_shr_vartime_wide((x, hi), arg!(dec32(s))).into();
+            r.map(|(l, h)| format!("{} {}", uhex(&l), uhex(&h))).unwrap_or("none".into())
+        }
+        ("bits", []) => format!("{}", x.bits()),
+        ("bits_vartime", []) => format!("{}", x.bits_vartime()),
+        ("leading_zeros", []) => format!("{}", x.leading_zeros()),
+        ("leading_zeros_vartime", []) => format!("{}", x.leading_zeros_vartime()),
+        ("trailing_zeros", []) => format!("{}", x.trailing_zeros()),
+        ("trailing_zeros_vartime", []) => format!("{}", x.trailing_zeros_vartime()),
+        ("trailing_ones", []) => format!("{}", x.trailing_ones()),
+        ("trailing_ones_vartime", []) => format!("{}", x.trailing_ones_vartime()),
+        ("bitops", []) => bitops_line(&x),
+        ("bit", [i]) => cchoice(x.bit(arg!(dec32(i)))),
+        ("bit_vartime", [i]) => bit(x.bit_vartime(arg!(dec32(i)))),
+        ("tr_bit", [i]) => choice(BitOps::bit(&x, arg!(dec32(i)))),
+        ("tr_bit_vartime", [i]) => bit(BitOps::bit_vartime(&x, arg!(dec32(i)))),
+        ("set_bit", [i, v]) => {
+            let mut y = x;
+            BitOps::set_bit(&mut y, arg!(dec32(i)), arg!(tochoice(v)));
+            uhex(&y)
+        }
+        ("set_bit_vartime", [i, v]) => {
+            let mut y = x;
+            BitOps::set_bit_vartime(&mut y, arg!(dec32(i)), *v == "1");
+            uhex(&y)
+        }
+        ("and", [y]) => {
+            let y = arg!(uint::<N>(y));
+            let (mut a1, mut a2) = (x, x);
+            a1 &= y;
+            a2 &= &y;
+            let (mut w1, mut w2) = (Wrapping(x), Wrapping(x));
+            w1 &= Wrapping(y);
+            w2 &= &Wrapping(y);
+            let ck: Option<Uint<N>> = x.checked_and(&y).into();
+            forms_agree!(
+                [
+                    x.bitand(&y), x & y, x & &y, &x & y, &x & &y, a1, a2, x.wrapping_and(&y),
+                    ck.unwrap_or(Uint::MAX), (Wrapping(x) & Wrapping(y)).0, (Wrapping(x) & &Wrapping(y)).0,
+                    (&Wrapping(x) & Wrapping(y)).0, (&Wrapping(x) & &Wrapping(y)).0, w1.0, w2.0
+                ],
+                uhex
+            )
+        }
+        ("or", [y]) => {
+            let y = arg!(uint::<N>(y));
+            let (mut a1, mut a2) = (x, x);
+            a1 |= y;
+            a2 |= &y;
+            let (mut w1, mut w2) = (Wrapping(x), Wrapping(x));
+            w1 |= Wrapping(y);
+            w2 |= &Wrapping(y);
+            let ck: Option<Uint<N>> = x.checked_or(&y).into();
+            forms_agree!(
+                [
+                    x.bitor(&y), x | y, x | &y, &x | y, &x | &y, a1, a2, x.wrapping_or(&y),
+                    ck.unwrap_or(Uint::ZERO), (Wrapping(x) | Wrapping(y)).0, (Wrapping(x) | &Wrapping(y)).0,
+                    (&Wrapping(x) | Wrapping(y)).0, (&Wrapping(x) | &Wrapping(y)).0, w1.0, w2.0
+                ],
+                uhex
+            )
+        }
+        ("xor", [y]) => {
+            let y = arg!(uint::<N>(y));
+            let (mut a1, mut a2) = (x, x);
+            a1 ^= y;
+            a2 ^= &y;
+            let (mut w1, mut w2) = (Wrapping(x), Wrapping(x));
+            w1 ^= Wrapping(y);
+            w2 ^= &Wrapping(y);
+            let ck: Option<Uint<N>> = x.checked_xor(&y).into();
+            forms_agree!(
+                [
+                    x.bitxor(&y), x ^ y, x ^ &y, &x ^ y, &x ^ &y, a1, a2, x.wrapping_xor(&y),
+                    ck.unwrap_or(Uint::MAX), (Wrapping(x) ^ Wrapping(y)).0, (Wrapping(x) ^ &Wrapping(y)).0,
+                    (&Wrapping(x) ^ Wrapping(y)).0, (&Wrapping(x) ^ &Wrapping(y)).0, w1.0, w2.0
+                ],
+                uhex
+            )
+        }
+        ("not", []) => forms_agree!([x.not(), !x, (!Wrapping(x)).0], uhex),
+        ("and_limb", [l]) => uhex(&x.bitand_limb(arg!(limb(l)))),
+        _ => return None,
+    })
+}
+
+fn signed<const N: usize>(op: &str, a: &[&str]) -> Option<String> {
+    let x = arg!(a.first().and_then(|s| int::<N>(s)));
+    let a = &a[1..];
+    Some(match (op, a) {
+        ("shl", [s]) => ihex(&x.shl(arg!(dec32(s)))),
+        ("shr", [s]) => ihex(&x.shr(arg!(dec32(s)))),
+        ("shl_vartime", [s]) => ihex(&x.shl_vartime(arg!(dec32(s)))),
+        ("shr_vartime", [s]) => ihex(&x.shr_vartime(arg!(dec32(s)))),
+        ("overflowing_shl", [s]) => coi(x.overflowing_shl(arg!(dec32(s)))),
+        ("overflowing_shr", [s]) => coi(x.overflowing_shr(arg!(dec32(s)))),
+        ("overflowing_shl_vartime", [s]) => coi(x.overflowing_shl_vartime(arg!(dec32(s)))),
+        ("overflowing_shr_vartime", [s]) => coi(x.overflowing_shr_vartime(arg!(dec32(s)))),
+        ("wrapping_shl", [s]) => ihex(&x.wrapping_shl(arg!(dec32(s)))),
+        ("wrapping_shr", [s]) => ihex(&x.wrapping_shr(arg!(dec32(s)))),
+        ("wrapping_shl_vartime", [s]) => ihex(&x.wrapping_shl_vartime(arg!(dec32(s)))),
+        ("wrapping_shr_vartime", [s]) => ihex(&x.wrapping_shr_vartime(arg!(dec32(s)))),
+        ("tr_wrapping_shl", [s]) => ihex(&WrappingShl::wrapping_shl(&x, arg!(dec32(s)))),
+        ("tr_wrapping_shr", [s]) => ihex(&WrappingShr::wrapping_shr(&x, arg!(dec32(s)))),
+        ("tr_overflowing_shl_vartime", [s]) => cto(ShlVartime::overflowing_shl_vartime(&x, arg!(dec32(s))), ihex),
+        ("tr_overflowing_shr_vartime", [s]) => cto(ShrVartime::overflowing_shr_vartime(&x, arg!(dec32(s))), ihex),
+        ("tr_wrapping_shl_vartime", [s]) => ihex(&ShlVartime::wrapping_shl_vartime(&x, arg!(dec32(s)))),
+        ("tr_wrapping_shr_vartime", [s]) => ihex(&ShrVartime::wrapping_shr_vartime(&x, arg!(dec32(s)))),
+        ("op_shl", [s, f]) => {
+            let s = arg!(dec32(s));
+            match *f {
+                "0" => ihex(&(x << s)),
+                "1" => ihex(&(&x << s)),
+                "2" => {
+                    let mut y = x;
+                    y <<= s;
+                    ihex(&y)
+                }
+                "3" => ihex(&(x << (s as i32))),
+                "4" => ihex(&(&x << (s as usize))),
+                "5" => {
+                    let mut y = x;
+                    y <<= s as usize;
+                    ihex(&y)
+                }
+                _ => return Some(BAD.into()),
+            }
+        }
+        ("op_shr", [s, f]) => {
+            let s = arg!(dec32(s));
+            match *f {
+                "0" => ihex(&(x >> s)),
+                "1" => ihex(&(&x >> s)),
+                "2" => {
+                    let mut y = x;
+                    y >>= s;
+                    ihex(&y)
+                }
+                "3" => ihex(&(x >> (s as i32))),
+                "4" => ihex(&(&x >> (s as usize))),
+                "5" => {
+                    let mut y = x;
+                    y >>= s as usize;
+                    ihex(&y)
+                }
+                _ => return Some(BAD.into()),
+            }
+        }
+        _ => return None,
+    })
+}
+
+fn boxed_op(op: &str, a: &[&str]) -> Option<String> {
+    let n = arg!(a.first().and_then(|s| dec(s)));
+    let x = arg!(a.get(1).and_then(|s| boxed(s, n)));
+    let a = &a[2..];
+    let ovf = |r: (BoxedUint, Choice)| format!("{} {}", bhexlen(&r.0), choice(r.1));
+    Some(match (op, a) {
+        ("shl", [s]) => bhexlen(&x.shl(arg!(dec32(s)))),
+        ("shr", [s]) => bhexlen(&x.shr(arg!(dec32(s)))),
+        ("overflowing_shl", [s]) => ovf(x.overflowing_shl(arg!(dec32(s)))),
+        ("overflowing_shr", [s]) => ovf(x.overflowing_shr(arg!(dec32(s)))),
+        ("shl_vartime", [s]) => x.shl_vartime(arg!(dec32(s))).map(|v| bhexlen(&v)).unwrap_or("none".into()),
+        ("shr_vartime", [s]) => x.shr_vartime(arg!(dec32(s))).map(|v| bhexlen(&v)).unwrap_or("none".into()),
+        ("wrapping_shl", [s]) => bhexlen(&x.wrapping_shl(arg!(dec32(s)))),
+        ("wrapping_shr", [s]) => bhexlen(&x.wrapping_shr(arg!(dec32(s)))),
+        ("wrapping_shl_vartime", [s]) => bhexlen(&x.wrapping_shl_vartime(arg!(dec32(s)))),
+        ("wrapping_shr_vartime", [s]) => bhexlen(&x.wrapping_shr_vartime(arg!(dec32(s)))),
+        ("tr_wrapping_shl", [s]) => bhexlen(&WrappingShl::wrapping_shl(&x, arg!(dec32(s)))),
+        ("tr_wrapping_shr", [s]) => bhexlen(&WrappingShr::wrapping_shr(&x, arg!(dec32(s)))),
+        ("tr_overflowing_shl_vartime", [s]) => cto(ShlVartime::overflowing_shl_vartime(&x, arg!(dec32(s))), bhexlen),
+        ("tr_overflowing_shr_vartime", [s]) => cto(ShrVartime::overflowing_shr_vartime(&x, arg!(dec32(s))), bhexlen),
+        ("tr_wrapping_shl_vartime", [s]) => bhexlen(&ShlVartime::wrapping_shl_vartime(&x, arg!(dec32(s)))),
+        ("tr_wrapping_shr_vartime", [s]) => bhexlen(&ShrVartime::wrapping_shr_vartime(&x, arg!(dec32(s)))),
+        ("op_shl", [s, f]) => {
+            let s = arg!(dec32(s));
+            match *f {
+                "0" => bhexlen(&(x << s)),
+                "1" => bhexlen(&(&x << s)),
+                "2" => {
+                    let mut y = x;
+                    y <<= s;
+                    bhexlen(&y)
+                }
+                "3" => bhexlen(&(x << (s as i32))),
+                "4" => bhexlen(&(&x << (s as usize))),
+                "5" => {
+                    let mut y = x;
+                    y <<= s as usize;
+                    bhexlen(&y)
+                }
+                "6" => {
+                    let mut y = x;
+                    y.shl_assign(s);
+                    bhexlen(&y)
+                }
+                _ => return Some(BAD.into()),
+            }
+        }
+        ("op_shr", [s, f]) => {
+            let s = arg!(dec32(s));
+            match *f {
+                "0" => bhexlen(&(x >> s)),
+                "1" => bhexlen(&(&x >> s)),
+                "2" => {
+                    let mut y = x;
+                    y >>= s;
+                    bhexlen(&y)
+                }
+                "3" => bhexlen(&(x >> (s as i32))),
+                "4" => bhexlen(&(&x >> (s as usize))),
+                "5" => {
+                    let mut y = x;
+                    y >>= s as usize;
+                    bhexlen(&y)
+                }
+                "6" => {
+                    let mut y = x;
+                    y.shr_assign(s);
+                    bhexlen(&y)
+                }
+                _ => return Some(BAD.into()),
+            }
+        }
+        ("bits", []) => format!("{}", x.bits()),
+        ("bits_vartime", []) => format!("{}", x.bits_vartime()),
+        ("leading_zeros", []) => format!("{}", x.leading_zeros()),
+        ("trailing_zeros", []) => format!("{}", x.trailing_zeros()),
+        ("trailing_zeros_vartime", []) => format!("{}", x.trailing_zeros_vartime()),
+        ("trailing_ones", []) => format!("{}", x.trailing_ones()),
+        ("trailing_ones_vartime", []) => format!("{}", x.trailing_ones_vartime()),
+        ("bitops", []) => bitops_line(&x),
+        ("bit", [i]) => choice(x.bit(arg!(dec32(i)))),
+        ("bit_vartime", [i]) => bit(x.bit_vartime(arg!(dec32(i)))),
+        ("tr_bit", [i]) => choice(BitOps::bit(&x, arg!(dec32(i)))),
+        ("tr_bit_vartime", [i]) => bit(BitOps::bit_vartime(&x, arg!(dec32(i)))),
+        ("set_bit", [i, v]) => {
+            let mut y = x;
+            BitOps::set_bit(&mut y, arg!(dec32(i)), arg!(tochoice(v)));
+            bhexlen(&y)
+        }
+        ("set_bit_vartime", [i, v]) => {
+            let mut y = x;
+            BitOps::set_bit_vartime(&mut y, arg!(dec32(i)), *v == "1");
+            bhexlen(&y)
+        }
+        ("not", []) => forms_agree!([x.not(), !x.clone(), (!Wrapping(x.clone())).0], bhexlen),
+        ("and_limb", [l]) => bhexlen(&x.bitand_limb(arg!(limb(l)))),
+        ("and", [ny, y]) => {
+            let y = arg!(boxed(y, arg!(dec(ny))));
+            let (mut a1, mut a2) = (x.clone(), x.clone());
+            a1 &= y.clone();
+            a2 &= &y;
+            let (mut w1, mut w2) = (Wrapping(x.clone()), Wrapping(x.clone()));
+            w1 &= Wrapping(y.clone());
+            w2 &= &Wrapping(y.clone());
+            let ck: Option<BoxedUint> = x.checked_and(&y).into();
+            forms_agree!(
+                [
+                    x.bitand(&y), x.clone() & y.clone(), x.clone() & &y, &x & y.clone(), &x & &y, a1, a2,
+                    x.wrapping_and(&y), ck.unwrap_or(BoxedUint::zero()),
+                    (Wrapping(x.clone()) & Wrapping(y.clone())).0, (Wrapping(x.clone()) & &Wrapping(y.clone())).0,
+                    (&Wrapping(x.clone()) & Wrapping(y.clone())).0, (&Wrapping(x.clone()) & &Wrapping(y.clone())).0,
+                    w1.0, w2.0
+                ],
+                bhexlen
+            )
+        }
+        ("or", [ny, y]) => {
+            let y = arg!(boxed(y, arg!(dec(ny))));
+            let ck: Option<BoxedUint> = x.checked_or(&y).into();
+            forms_agree!(
+                [
+                    x.bitor(&y), x.clone() | y.clone(), x.clone() | &y, &x | y.clone(), &x | &y,
+                    x.wrapping_or(&y), ck.unwrap_or(BoxedUint::zero()),
+                    (Wrapping(x.clone()) | Wrapping(y.clone())).0, (Wrapping(x.clone()) | &Wrapping(y.clone())).0,
+                    (&Wrapping(x.clone()) | Wrapping(y.clone())).0, (&Wrapping(x.clone()) | &Wrapping(y.clone())).0
+                ],
+                bhexlen
+            )
+        }
+        // `|=` iterates the receiver's limbs only (zip): separate op, value printed without the limb count
+        ("or_assign", [ny, y, f]) => {
+            let y = arg!(boxed(y, arg!(dec(ny))));
+            match *f {
+                "0" => {
+                    let mut a = x;
+                    a |= y;
+                    bhex(&a)
+                }
+                "1" => {
+                    let mut a = x;
+                    a |= &y;
+                    bhex(&a)
+                }
+                "2" => {
+                    let mut a = Wrapping(x);
+                    a |= Wrapping(y);
+                    bhex(&a.0)
+                }
+                "3" => {
+                    let mut a = Wrapping(x);
+                    a |= &Wrapping(y);
+                    bhex(&a.0)
+                }
+                _ => return Some(BAD.into()),
+            }
+        }
+        ("xor", [ny, y]) => {
+            let y = arg!(boxed(y, arg!(dec(ny))));
+            let (mut a1, mut a2) = (x.clone(), x.clone());
+            a1 ^= y.clone();
+            a2 ^= &y;
+            let (mut w1, mut w2) = (Wrapping(x.clone()), Wrapping(x.clone()));
+            w1 ^= Wrapping(y.clone());
+            w2 ^= &Wrapping(y.clone());
+            let ck: Option<BoxedUint> = x.checked_xor(&y).into();
+            forms_agree!(
+                [
+                    x.bitxor(&y), x.clone() ^ y.clone(), x.clone() ^ &y, &x ^ y.clone(), &x ^ &y, a1, a2,
+                    x.wrapping_xor(&y), ck.unwrap_or(BoxedUint::zero()),
+                    (Wrapping(x.clone()) ^ Wrapping(y.clone())).0, (Wrapping(x.clone()) ^ &Wrapping(y.clone())).0,
+                    (&Wrapping(x.clone()) ^ Wrapping(y.clone())).0, (&Wrapping(x.clone()) ^ &Wrapping(y.clone())).0,
+                    w1.0, w2.0
+                ],
+                bhexlen
+            )
+        }
+        _ => return None,
+    })
+}
+
+fn limb_op(op: &str, a: &[&str]) -> Option<String> {
+    let x = arg!(a.first().and_then(|s| limb(s)));
+    let a = &a[1..];
+    Some(match (op, a) {
+        ("shl", [s]) => lhex(x.shl(arg!(dec32(s)))),
+        ("shr", [s]) => lhex(x.shr(arg!(dec32(s)))),
+        ("op_shl", [s, f]) => {
+            let s = arg!(dec32(s));
+            match *f {
+                "0" => lhex(x << s),
+                "1" => lhex(&x << s),
+                "2" => {
+                    let mut y = x;
+                    y <<= s;
+                    lhex(y)
+                }
+                "3" => lhex(x << (s as i32)),
+                "4" => lhex(&x << (s as usize)),
+                "5" => {
+                    let mut y = x;
+                    y <<= s as usize;
+                    lhex(y)
+                }
+                _ => return Some(BAD.into()),
+            }
+        }
+        ("op_shr", [s, f]) => {
+            let s = arg!(dec32(s));
+            match *f {
+                "0" => lhex(x >> s),
+                "1" => lhex(&x >> s),
+                "2" => {
+                    let mut y = x;
+                    y >>= s;
+                    lhex(y)
+                }
+                "3" => lhex(x >> (s as i32)),
+                "4" => lhex(&x >> (s as usize)),
+                "5" => {
+                    let mut y = x;
+                    y >>= s as usize;
+                    lhex(y)
+                }
+                _ => return Some(BAD.into()),
+            }
+        }
+        ("wrapping_shl", [s]) => lhex(WrappingShl::wrapping_shl(&x, arg!(dec32(s)))),
+        ("wrapping_shr", [s]) => lhex(WrappingShr::wrapping_shr(&x, arg!(dec32(s)))),
+        ("bits", []) => format!("{}", x.bits()),
+        ("leading_zeros", []) => format!("{}", x.leading_zeros()),
+        ("trailing_zeros", []) => format!("{}", x.trailing_zeros()),
+        ("trailing_ones", []) => format!("{}", x.trailing_ones()),
+        _ => return None,
+    })
+}
+
+pub fn dispatch(op: &str, a: &[&str]) -> Option<String> {
+    let mut parts = op.splitn(3, '.');
+    let (_, kind, name) = (parts.next()?, parts.next()?, parts.next()?);
+    match kind {
+        "l" => limb_op(name, a),
+        "b" => boxed_op(name, a),
+        "u" | "i" => {
+            if a.is_empty() {
+                return Some(BAD.into());
+            }
+            let n = arg!(dec(a[0]));
+            let rest = &a[1..];
+            if kind == "u" { with_n!(n, fixed, name, rest) } else { with_n!(n, signed, name, rest) }
+        }
+        _ => None,
+    }
 }
